@@ -3,7 +3,7 @@ from .. import simprop
 
 ID = "C09"
 FAMILY = "C09"
-VARIANTS = ("asan",)
+VARIANTS = ("asan", "rel")      # rel: only to re-judge a case that UBSan stopped (simprop)
 BUDGET = {"quick": dict(examples=80000, seconds=55), "thorough": dict(examples=2000000, seconds=540)}
 NONTRIVIAL = {'restart', 'end-with-obligations', 'end-with-waiters'}
 PROFILES = [(4, 'lifecycle'), (2, 'timing'), (1, 'mixed')]
